@@ -7,7 +7,7 @@ import random as _pyrandom
 from pvc.contract import Contract
 from pvc.sym import And, Or, Not, Implies, eq, lt, le, is_sym, smin, smax
 from . import fx
-from .net import Net, build_dcop, global_cost, HandlerRaised
+from .net import Net, build_dcop, global_cost, HandlerRaised, get_spec
 
 SPECS = {
     "chain3": dict(vars={"x1": [0, 1], "x2": ["a", "b"], "x3": [7, 0]}, cons=[["x1", "x2"], ["x2", "x3"]]),
@@ -28,7 +28,8 @@ SPECS = {
 
 def h_dpop(env):
     p = env.params
-    spec = SPECS[p["spec"]]
+    # 'rand<n>': a random instance per run (depth >= 3 pseudo-trees, pseudo-parents, forests, unary / ternary constraints)
+    spec = get_spec(env, p, SPECS)
     mode = env.choice("mode", p.get("modes", ["min", "max"]))
     import pydcop.dcop.relations as R
     import pydcop.algorithms.dpop as DP
@@ -99,8 +100,14 @@ def _shapes(tier, prop=None):
         dict(spec="star", modes=["max"], policy="favor:x3", start_order="rev"),
         dict(spec="triangle", modes=["min"], policy="starve:x1", interleave_start=True, between=2),
     ]
+    # 4-6 variables: too many paths for the exact exploration, decided by the sampled native pass (several parts in parallel)
+    big = [dict(spec="rand4", sample_only=True, sample_factor=4, sample_part=0, policy="random", sched_seed=1),
+           dict(spec="rand5", sample_only=True, sample_factor=4, sample_part=1, inst_to=60),
+           dict(spec="rand5", sample_only=True, sample_factor=4, sample_part=2, inst_to=60, nary=True, policy="random", sched_seed=2, start_order="rev"),
+           dict(spec="rand6", sample_only=True, sample_factor=3, sample_part=3, inst_to=80, connected=False, policy="lifo", interleave_start=True)]
     if prop == "C10" and tier == "quick":
-        return [q[1], q[6], q[7]]
+        return [q[1], q[6], q[7], big[1]]
+    q = q + big
     if tier != "thorough":
         return q
     return q + [
